@@ -30,7 +30,7 @@ RULE = ("cases = a generated system (Schema/DataClass A with late references Opt
         "thorough: all), sampled 2-preemption plans, and free-running trials with sleep(0) injection. Non-trivial = an executed "
         "plan whose preemption fell inside a target function; distinct = distinct switch sequences (file:line of every switch).")
 ASSUMPTIONS = [
-    "bounded restatement of 'no schedule': all single-preemption plans at source-line granularity inside the named initialisation / registry functions, sampled 2-preemption plans and free-running stress; switches inside one C-level call or needing >= 3 preemptions are out of reach",
+    "bounded restatement of 'no schedule': all single-preemption plans (thorough: up to 1500 per case, sampled beyond that; quick: 90) at source-line granularity inside the named initialisation / registry / union-resolution / parser-lookup functions, sampled 2-preemption plans and free-running stress; switches inside one C-level call or needing >= 3 preemptions are out of reach",
     "every trial executes the system's source under fresh class names: typing's process-wide cache of Optional['Name'] objects would otherwise carry resolved classes from trial to trial (the C19/C17 known finding)",
     "a scheduler deadlock (a worker not getting the baton for 20 s) is inconclusive, never a violation",
 ]
@@ -323,6 +323,11 @@ def run_case(case, ctx):
     if tier == "quick":
         rng.shuffle(plans)
         plans = plans[:90]
+    elif len(plans) > 1500:
+        # thorough: every single-preemption position, up to a cap that keeps one case inside its wall-clock budget
+        rng.shuffle(plans)
+        plans = plans[:1500]
+        ctx.count("thorough_cases_with_sampled_single_preemption_plans")
     n2 = 6 if tier == "quick" else 40
     for _ in range(n2):
         a, b = rng.sample(range(nw), 2)
